@@ -1,4 +1,4 @@
-import Netpoll.Buf.OwnerLemmas10
+import Netpoll.Buf.OwnerLemmas18
 /-!
 C02 – zero-copy read results stay intact until their reader is released.
 
@@ -9,6 +9,23 @@ the owner away.
 -/
 namespace Netpoll.Props.C02
 open Netpoll.Buf Netpoll.Buf.Own
+
+/-- **What a Slice reader (or any other open reader) still holds is never handed back to the pool**: in every state of a
+covered history the block under each struct chained in a buffer – the child nodes a Slice reader holds on its parent's
+blocks, whatever happened to the parent since (reads, growth, Append, Release, Close) – has not been freed.
+`_partial`: `Cov` excludes `WriteDirect` with `remain > 0` (known finding D4, witnesses below) and a `MallocAck` that
+would reset a reference count different from 1; it asks for fresh buffer ids. -/
+theorem C02_no_free_while_reader_holds_partial (cfg : Cfg) (ops : List Op) (hc : AllSteps cfg Cov {} ops)
+    (id i k : Nat) (b : Buf) (nd : NodeS) (bl : Block)
+    (hb : (id, b) ∈ (run cfg {} ops).bufs) (hi : i ∈ b.chain) (hn : (run cfg {} ops).mem.nodes[i]? = some nd)
+    (hk : nd.block = some k) (hbl : (run cfg {} ops).mem.blocks[k]? = some bl) : bl.frees = 0 :=
+  (run_good ops hc).chained_unfreed hb hi hn hk hbl
+
+/-- a Slice reader outliving its parent's Close: the hypotheses are met and the child still sits on the parent's (unfreed) block -/
+def sliceOps : List Op := [.new 0 16, .mal 0 40, .flush 0, .slice 0 30 1, .next 1 10, .close 0]
+example : AllSteps { linkBufferCap := 16 } Cov {} sliceOps := allStepsB_sound (fun _ _ => covB_sound) _ _ (by decide)
+example : ((run { linkBufferCap := 16 } {} sliceOps).bufs.map fun p => (p.1, p.2.chain.length)) = [(0, 0), (1, 1)] := by decide
+example : ((run { linkBufferCap := 16 } {} sliceOps).mem.blocks.map (·.frees)) = [1, 0] := by decide
 
 /-- the concrete history of known finding D4 (corpus/C02/d04-writedirect-split-slice.ops, `seq 315 16`):
 `WriteDirect(extra, remain = 13)` splits block 1 into an unmanaged head node and a managed tail node; a Slice
